@@ -26,6 +26,10 @@ func c16Containers() []model.Value {
 		model.Hash(he(model.Str("b"), model.Int(2)), he(model.Str("a"), model.Int(1)), he(model.Str("c"), model.Str("z"))),
 		model.Hash(he(model.Int(10), model.Str("ten")), he(model.Int(9), model.Str("nine")), he(model.Float(2.5), model.Bool(true)), he(model.Str("k"), model.Float(0.5))),
 		model.Hash(he(model.Int(-1), model.Int(0)), he(model.Int(0), model.Int(1))),
+		model.Hash(he(model.Float(1.25), model.Str("a")), he(model.Float(1.5), model.Str("b")), he(model.Float(1.75), model.Str("c"))),
+		model.Hash(he(model.Float(0.1), model.Int(1)), he(model.Float(0.2), model.Int(2)), he(model.Float(0.3), model.Int(3)), he(model.Float(-0.5), model.Int(4))),
+		model.Hash(he(model.Int(256), model.Str("i")), he(model.Int(512), model.Str("j")), he(model.Int(65536), model.Str("k")), he(model.Int(4294967296), model.Str("l")), he(model.Int(-256), model.Str("m"))),
+		model.Hash(he(model.Str("ab"), model.Int(1)), he(model.Str("ba"), model.Int(2)), he(model.Str("a"), model.Int(3)), he(model.Str("b"), model.Int(4)), he(model.Str(""), model.Int(5))),
 	}
 }
 
@@ -56,7 +60,7 @@ func c16(c *ev.Ctx) {
 	addProg := func(id, class string, p gast.Program, vars, flds map[string]model.Value) {
 		jobs = append(jobs, job{id, class, p, vars, flds})
 	}
-	probeKeys := []model.Value{model.Int(0), model.Int(1), model.Int(-1), model.Int(9), model.Int(10), model.Float(1), model.Float(2.5), model.Float(10), model.Str("a"), model.Str("1"), model.Str("10"), model.Str("2.5"), model.Str("k"), model.Str(""), model.Str("absent"), model.Bool(true), model.Null()}
+	probeKeys := []model.Value{model.Int(0), model.Int(1), model.Int(-1), model.Int(9), model.Int(10), model.Float(1), model.Float(2.5), model.Float(10), model.Float(2.75), model.Float(1.25), model.Float(1.26), model.Float(0.5), model.Float(0.15), model.Int(256), model.Int(0), model.Str("a"), model.Str("1"), model.Str("10"), model.Str("2.5"), model.Str("k"), model.Str(""), model.Str("absent"), model.Bool(true), model.Null()}
 	for ci, v := range conts {
 		for prov := 0; prov < 3; prov++ {
 			var x gast.Expr
